@@ -147,3 +147,24 @@ def graph_to_nx_coloured(g):
         a, b = tuple(e)
         h.add_edge(a, b)
     return h
+
+
+class default_recursion:
+    """Run library calls with the stack head-room a plain script has under CPython's default
+    recursion limit (1000 frames, ~10 of them used by the caller).  Hypothesis raises the
+    interpreter's limit while it runs a test, which would otherwise mask recursion-depth
+    failures that every ordinary caller of the library would see."""
+
+    def __enter__(self):
+        depth = 0
+        f = sys._getframe()
+        while f is not None:
+            depth += 1
+            f = f.f_back
+        self.old = sys.getrecursionlimit()
+        sys.setrecursionlimit(depth + 990)
+        return self
+
+    def __exit__(self, *exc):
+        sys.setrecursionlimit(self.old)
+        return False
